@@ -494,6 +494,11 @@ def first_variable(m, g, init, form):
         return pf.CellVariable(m, init.copy())
     if form == 'interior-int':
         return pf.CellVariable(m, init.astype(np.int64))
+    if form in ('interior-int-periodic', 'interior-periodic'):
+        # boundary conditions handed to the constructor, first axis declared periodic by the flag of its low side
+        BC = pf.BoundaryConditions(m)
+        getattr(BC, SIDES[0][0]).periodic = True
+        return pf.CellVariable(m, init.astype(np.int64) if '-int' in form else init.copy(), BC)
     full = np.zeros(g.full_shape())
     full[...] = 7.0
     full[tuple(slice(1, -1) for _ in range(g.nd))] = init
@@ -506,6 +511,11 @@ def run_history(cls, faces, coef, letters, mirror=False, init_form='interior'):
     W = World(cls, faces, coef, mirror=mirror)
     W.nrec = 1
     W.recs[1] = new_record(W.g)
+    if init_form.endswith('periodic'):
+        if AXKIND[cls][0] not in ('len', 'ang'):
+            init_form = init_form.replace('-periodic', '')
+        else:
+            W.recs[1]['per'][SIDES[0][0]] = True
     v0 = first_variable(W.m, W.g, coef['init'], init_form)
     W.add_var(coef['init'], 1, v0)
     done = []
@@ -531,6 +541,29 @@ def run_history(cls, faces, coef, letters, mirror=False, init_form='interior'):
     except Fail as f:
         return f, W, done
     return None, W, done
+
+
+def refreshed_before_failure(done):
+    """second half of the known finding's discriminating condition: the stale variable was used as it was left when a sibling
+    cleared the shared dirty flags. If, after the last boundary-condition edit, the failing variable itself was refreshed through
+    a documented route (apply_BCs(), an assignment to .value, update_value()) and still solves with stale data, that is NOT the
+    recorded mechanism (on the unchanged tree such a refresh always rebuilds the cached boundary term) - a new violation."""
+    if not done or done[-1][0] not in ('solve', 'explicit', 'explicit-keep'):
+        return False
+    v = done[-1][1]
+    last_edit = -1
+    for t, L in enumerate(done[:-1]):
+        if L[0] in ('bc', 'util', 'periodic'):
+            last_edit = t
+    refreshed = False
+    for L in done[last_edit + 1:-1]:
+        if L[0] in ('copy', 'arith', 'share', 'explicit-keep') and (L[-1] if L[0] != 'share' else L[2]) == v:
+            refreshed = False            # slot v now holds another variable
+        elif L[0] == 'explicit' and L[1] == v:
+            refreshed = False            # replaced by the explicit result (which shares the BC object)
+        elif L[0] in ('apply', 'value', 'update_value') and L[1] == v:
+            refreshed = True
+    return refreshed
 
 
 def run_case(case):
@@ -575,18 +608,18 @@ def run_case(case):
                 slot = L[-1] if L[0] != 'share' else L[2]
                 if slot >= nlive:
                     nlive += 1
-    if case.get('kunit'):
+    if case.get('kunit') and '-int' not in case.get('init_form', 'interior'):
         # the whole history in nano (or mega) field units: every number with the dimension of the field is rescaled
         Ku = float(10 ** (rng.uniform(-12, -8) if rng.random() < 0.7 else rng.uniform(6, 9)))
         coef['init'] = coef['init'] * Ku
         coef['gamma'] = coef['gamma'] * Ku
         letters = [scale_letter(L, Ku) for L in letters]
     init_form = case.get('init_form', 'interior')
-    if init_form.endswith('-int'):
+    if '-int' in init_form:
         coef['init'] = np.round(coef['init'] * 3.0)          # whole numbers, so that the integer-typed forms hold the same values
     fail, W, done = run_history(cls, faces, coef, letters, init_form=init_form)
     names = [abstract(L) for L in done]
-    cov = {'init_form:' + init_form: 1, 'field_unit:%s' % ('scaled' if case.get('kunit') else '1'): 1, 'histories:%s' % case['kind']: 1, 'letters': len(done), 'visible_state_checks': W.events, 'solve_comparisons': W.solves, 'cls:' + cls: 1}
+    cov = {'init_form:' + init_form: 1, 'field_unit:%s' % ('scaled' if (case.get('kunit') and '-int' not in case.get('init_form', 'interior')) else '1'): 1, 'histories:%s' % case['kind']: 1, 'letters': len(done), 'visible_state_checks': W.events, 'solve_comparisons': W.solves, 'cls:' + cls: 1}
     for nme in set(names):
         cov['letter:' + nme.split('.')[0]] = 1
     key = '%s/%s/%s' % (cls, [len(f) - 1 for f in faces], '>'.join(names))
@@ -600,7 +633,7 @@ def run_case(case):
     if any(L[0] in ('share', 'explicit-keep') for L in done):
         # discriminating condition of the known finding: same history with sharing replaced by deep-copy-and-mirror passes
         fail2, W2, _ = run_history(cls, faces, coef, letters, mirror=True, init_form=init_form)
-        if fail2 is None:
+        if fail2 is None and not refreshed_before_failure(done):
             mech = KEY_SHARED
     return {'verdict': 'violated', 'mech': mech, 'key': key, 'cov': cov, 'nontrivial': True,
             'msg': ('history %s: ' % '>'.join(names)) + fail.msg[:500],
@@ -632,7 +665,7 @@ def plan(tier, seed):
     per = 60 if tier == 'quick' else 1500
     for ci, cls in enumerate(CLASSES):
         rc = [{'kind': 'random', 'cls': cls, 'seed': [seed, 9, 100 + ci, i],
-               'init_form': ['interior', 'with-ghosts', 'interior', 'with-ghosts-int', 'interior-int'][i % 5], 'kunit': i % 3 == 2} for i in range(per)]
+               'init_form': ['interior', 'with-ghosts', 'interior-periodic', 'with-ghosts-int', 'interior-int', 'interior-int-periodic'][i % 6], 'kunit': i % 3 == 2} for i in range(per)]
         st = 25 if NDIM[cls] < 3 else 13
         for j in range(0, len(rc), st):
             chunks.append(rc[j:j + st])
@@ -649,7 +682,7 @@ def floors(agg, tier):
             out.append('%s < %d' % (k, need))
     if agg['cov'].get('field_unit:scaled', 0) < 40:
         out.append('field_unit:scaled < 40')
-    for fm in ('interior', 'with-ghosts', 'with-ghosts-int', 'interior-int'):
+    for fm in ('interior', 'with-ghosts', 'with-ghosts-int', 'interior-int', 'interior-int-periodic', 'interior-periodic'):
         if agg['cov'].get('init_form:' + fm, 0) < 20:
             out.append('init_form:%s < 20' % fm)
     for nm in ('bc', 'fixedValue', 'fixedGradient', 'newtonCooling', 'defaultNoFlux', 'periodic', 'value', 'update_value', 'copy', 'arith', 'share', 'apply', 'solve', 'explicit', 'explicit-keep'):
